@@ -50,6 +50,15 @@ func goEnv() []string {
 	return env
 }
 
+// modfileArgs: run_check.sh passes the alternate go.mod (VERIF_MODFILE) used
+// when the repository under test is not /repo.
+func modfileArgs() []string {
+	if m := os.Getenv("VERIF_MODFILE"); m != "" {
+		return []string{"-modfile=" + m}
+	}
+	return nil
+}
+
 func buildC11(needRace bool) (*c11Builds, error) {
 	dir, err := ioutil.TempDir("", "verif-c11-")
 	if err != nil {
@@ -57,7 +66,7 @@ func buildC11(needRace bool) (*c11Builds, error) {
 	}
 	b := &c11Builds{dir: dir}
 	t0 := time.Now()
-	res, err := instr.Generate("/repo", filepath.Join(dir, "instr"))
+	res, err := instr.Generate(h.RepoDir, filepath.Join(dir, "instr"))
 	if err != nil {
 		return b, fmt.Errorf("instrumenting /repo failed: %v", err)
 	}
@@ -69,7 +78,7 @@ func buildC11(needRace bool) (*c11Builds, error) {
 	wg.Add(1)
 	go func() {
 		defer wg.Done()
-		cmd := exec.Command("go", "build", "-overlay", res.OverlayPath, "-tags", "verifsched", "-o", b.sched, "./cmd/verif")
+		cmd := exec.Command("go", append([]string{"build"}, append(modfileArgs(), "-overlay", res.OverlayPath, "-tags", "verifsched", "-o", b.sched, "./cmd/verif")...)...)
 		cmd.Dir = harnessDir()
 		cmd.Env = goEnv()
 		out1, err1 = cmd.CombinedOutput()
@@ -79,7 +88,7 @@ func buildC11(needRace bool) (*c11Builds, error) {
 		wg.Add(1)
 		go func() {
 			defer wg.Done()
-			cmd := exec.Command("go", "build", "-race", "-o", b.race, "./cmd/verif")
+			cmd := exec.Command("go", append([]string{"build"}, append(modfileArgs(), "-race", "-o", b.race, "./cmd/verif")...)...)
 			cmd.Dir = harnessDir()
 			cmd.Env = goEnv()
 			out2, err2 = cmd.CombinedOutput()
